@@ -110,12 +110,13 @@ func runC04(tb ev.TB, p sim.Prog) ev.Result {
 
 func TestC04(t *testing.T) {
 	c := ev.Get("C04")
-	c.Rule = "multi-replica program generator of C01 with extra weight on appends (pointer counts from {0,1,2,3,4,8,16,64}), identity changes and rebuilds from entries (with and without heads). Every append is checked against the model state just before it: next == model heads, clock id == writer public key, time > max time held, single head, references in the strict causal past / disjoint from next / duplicate-free / <= floor(log2(pc))+1 (the number of powers of two up to pc), one more when the log is shorter than pc. Non-trivial = an append on a replica holding entries of >= 2 writers whose largest time belongs to a remote writer, or pointer count > 1 on a forked log; distinct = distinct program."
+	c.Rule = "multi-replica program generator of C01 with extra weight on appends (pointer counts from {0,1,2,3,4,8,16,64}), identity changes and rebuilds from entries (with and without heads); the log's SortFn is LastWriteWins, the hash ordering or FirstWriteWins; initial clocks up to 1.7e18. Every append is checked against the model state just before it: next == model heads, clock id == writer public key, time > max time held, single head, references in the strict causal past / disjoint from next / duplicate-free / <= floor(log2(pc))+1 (the number of powers of two up to pc), one more when the log is shorter than pc. Non-trivial = an append on a replica holding entries of >= 2 writers whose largest time belongs to a remote writer, or pointer count > 1 on a forked log; distinct = distinct program."
 	c.Assumptions = []string{"clock times stay far below MaxInt (time+1 must overflow at MaxInt in any implementation)"}
 	ev.Check(t, "C04", func(t *rapid.T) sim.Prog {
 		cfg := genCfg(false)
 		cfg.AppendBias = 4
 		cfg.WithLoad = true
+		cfg.Orders = []int{0, 0, 1, 2} // also FirstWriteWins: what an append produces does not depend on the log's SortFn
 		return sim.Gen(t, cfg)
 	}, runC04)
 }
